@@ -12,10 +12,19 @@ type ContextSettings struct {
 
 type ContextApply func(c *ContextSettings)
 
+type principalNodeType int
+
+const (
+	principalElement principalNodeType = iota
+	principalAttribute
+	principalNamespace
+)
+
 type exprContext struct {
 	root             store.Cursor
 	result           Result
 	contextPosition  int
+	principal        principalNodeType
 	builtinFunctions map[XmlName]Function
 	ContextSettings
 }
@@ -38,6 +47,7 @@ func (e *exprContext) copy() exprContext {
 		root:             e.root,
 		result:           e.result,
 		contextPosition:  e.contextPosition,
+		principal:        e.principal,
 		builtinFunctions: builtinFunctions,
 		ContextSettings:  e.ContextSettings,
 	}
